@@ -1,0 +1,16 @@
+//go:build verif
+
+package queue
+
+// Verification exports for property C05, round 9. Compiled only with -tags verif.
+
+// VerifC05Seqs returns the in-memory appended and acknowledged sequence WITHOUT taking rwMutex
+// (both are atomics). The harness calls it while a writer of the meta page is parked inside its
+// critical section, where AppendedSeq()/AcknowledgedSeq() would block on the read lock.
+func VerifC05Seqs(q Queue) (appended, acknowledged int64, ok bool) {
+	qq, ok := q.(*queue)
+	if !ok {
+		return 0, 0, false
+	}
+	return qq.appendedSeq.Load(), qq.acknowledgedSeq.Load(), true
+}
